@@ -24,7 +24,7 @@ MULTIS = [None, "first", "last", "single", "all"]
 def gen_case(r):
     d = G.doc(r, 4 if r.coin(60) else 3)
     p = G.guided_path(r, d, max_len=4, miss=10, mode="typed")
-    return d, p
+    return d, p, r.coin()
 
 
 def ex_pair(p):
@@ -32,8 +32,11 @@ def ex_pair(p):
 
 
 def body(case):
-    doc, path = case
+    doc_raw, path, shared_wrapper = case
     out = Outcome()
+    # one wrapped Data object shared by every call of the grid (as a caller holding a Data
+    # object would do), or the raw document
+    doc = doc_raw
     parts = path.parts
     sel = model.ref_select(parts, doc) if parts else [(doc, ())]
     conc = model.is_concrete(parts)
@@ -49,11 +52,13 @@ def body(case):
     except Exception as e:
         out.exc("build-path", e)
         return out
+    src = build.ns().da.Data(doc_raw) if shared_wrapper else doc_raw
+    out.label("shared-Data-object" if shared_wrapper else "raw-document")
 
     # (i)-(iii): truthfulness, distinctness, values without paths
     try:
-        gp = base.get_data(doc, return_paths=True)
-        gv = base.get_data(doc, return_paths=False)
+        gp = base.get_data(src, return_paths=True)
+        gv = base.get_data(src, return_paths=False)
     except Exception as e:
         out.exc("no-raise|base", e)
         return out
@@ -99,7 +104,7 @@ def body(case):
                     raised = None
                     try:
                         obj = build.apply_modifiers(base, pt)
-                        got = obj.get_data(doc, return_paths=rp)
+                        got = obj.get_data(src, return_paths=rp)
                     except ValueError as e:
                         raised = e
                     except Exception as e:
